@@ -27,11 +27,15 @@ def main():
         if a.prop:
             if a.prop not in props: continue
             props = [a.prop]
-        path = '/repo/' + m['file']
-        src = open(path).read()
-        if src.count(m['old']) != 1:
-            print(f"{m['id']}: pattern occurs {src.count(m['old'])} times, skipped"); continue
-        open(path, 'w').write(src.replace(m['old'], m['new']))
+        edits = m.get('edits') or [(m['file'], m['old'], m['new'])]
+        bad = False
+        for (f, old, new) in edits:
+            src = open('/repo/' + f).read()
+            if src.count(old) != 1:
+                print(f"{m['id']}: pattern in {f} occurs {src.count(old)} times, skipped"); bad = True; break
+            open('/repo/' + f, 'w').write(src.replace(old, new))
+        if bad:
+            sh('git -C /repo checkout -- .'); continue
         try:
             rec = {'id': m['id'], 'control': m.get('control', False), 'desc': m['desc'], 'results': {}}
             if a.tests:
@@ -49,7 +53,7 @@ def main():
                 print(f"{m['id']:34s} {p} {verdict:9s} {sig[:70]} ({rec['results'][p]['secs']}s){flag}", flush=True)
             out.write(json.dumps(rec) + '\n'); out.flush()
         finally:
-            open(path, 'w').write(src)
+            sh('git -C /repo checkout -- .')
     sh('git -C /repo checkout -- .')
 
 main()
